@@ -235,6 +235,24 @@ def run():
         if not verdicts[str(i)]:
             ck.reject(f"C17:float:{'exp' if 'e' in s.lower() else 'plain'}", f"{s} evaluates to {out[str(i)]['end']}, which is not the double nearest to the written decimal",
                       {"src": s, "observed": out[str(i)]["end"]})
+    # a written minus sign: `-<literal>` is the negation of the literal's value, the sign of a zero included (-0.0 is not 0.0)
+    zeros = ["0.0", ".0", "0.0e3", "0.000_0", "0.0e-5", "00.00"]
+    signed = zeros + lits[:60]
+    sreqs = []
+    for i, s_ in enumerate(signed):
+        for j, form in enumerate(("-{l}", "(-{l})", "x := -{l}; x", "[1.5, -{l}][1]", "{{a: -{l}}}.a", "-{l} * 1.0")):
+            sreqs.append({"id": f"n{i}.{j}", "src": form.format(l=s_)})
+        sreqs.append({"id": f"u{i}", "src": s_})
+    sout = run_cases(sreqs, label="C17 signed floats")
+    for i, s_ in enumerate(signed):
+        u = sout[f"u{i}"]["end"]
+        want = ("val:-" + u[4:]) if u.startswith("val:") else None
+        for j in range(6):
+            got = sout[f"n{i}.{j}"]["end"]
+            if (want is None and got.startswith("val:")) or (want is not None and got != want):
+                ck.reject(f"C17:float:signed:{'zero' if s_ in zeros else 'nonzero'}", f"{sreqs[i * 7 + j]['src']!r} evaluates to {got}; {s_} is {u}, so its negation is {want or 'rejected as well'}",
+                          {"src": sreqs[i * 7 + j]["src"], "observed": got, "expected": want, "unsigned": u})
+    total += len(sreqs)
     total += len(lits)
     ck.sample({"float": lits[5], "observed": out["5"]["end"], "spec_accepts": verdicts["5"]})
     ck.cov["evaluations"] = total
